@@ -103,8 +103,10 @@ def box_matrix_floats(cell):
     return [cell[c][r] for r in range(3) for c in range(3)]
 
 
-def setup_pair(I, cell, kernel, n_frames=1, times=None):
+def setup_pair(I, cell, kernel, n_frames=1, times=None, cell0=None, concrete0=False):
     X = [[Poly.var(f"x{f}_{i}") for i in range(6)] for f in range(n_frames)]
+    if concrete0:      # frame 0 concrete (C08: a later frame must not depend on it)
+        X[0] = [P(F(v)) for v in (F(1, 10), F(-3, 10), F(7, 10), F(12, 10), F(4, 10), F(-9, 10))]
     xyz = I.new_floats([v for fr in X for v in fr])
     pairs = I.new_ints([0, 1])
     dout = I.alloc(4 * max(1, n_frames if times is None else len(times)), "none")
@@ -114,7 +116,7 @@ def setup_pair(I, cell, kernel, n_frames=1, times=None):
     if times is not None:
         args.append(I.new_ints([t for p in times for t in p]))
     if cell is not None:
-        args.append(I.new_floats([v for _ in range(n_frames) for v in box_matrix_floats(cell)]))
+        args.append(I.new_floats([v for f in range(n_frames) for v in box_matrix_floats(cell0 if (cell0 is not None and f == 0) else cell)]))
     args += [dout, disp, nf, 2, 1]
     return args, {"X": X, "dout": dout, "disp": disp}
 
@@ -158,32 +160,35 @@ def integer_combination(I, n_poly):
     return True
 
 
-def check_kernel(kernel: str, cell: str, M: int = 2, coord_cells: int = 50):
-    """one kernel x one cell: all leaves, obligations (a) (b) (c)"""
+def check_kernel(kernel: str, cell: str, M: int = 2, coord_cells: int = 50, second_frame: bool = False, cell0: str = ""):
+    """one kernel x one cell: all leaves, obligations (a) (b) (c).  second_frame: a 2-frame call whose frame 0 is concrete (and has
+    the cell `cell0`); the obligations are then stated for frame 1 only — its result must not depend on frame 0 (C08)."""
     t0 = time.time()
     mod, _ = module()
     cellv = CELLS[cell] if cell != "none" else None
     is_t = kernel.endswith("_t")
-    n_frames = 2 if is_t else 1
+    n_frames = 2 if (is_t or second_frame) else 1
     times = [(0, 1)] if is_t else None
+    look = 1 if second_frame else 0
+    c0 = CELLS[cell0] if cell0 else None
     res = {"queries": 0, "solver_s": 0.0, "leaves": 0, "paths": 0}
     bad = None
     margin = rv(F(1, 10**6))
     unknown = []
-    for I, ctx, _ in L.explore(mod, kernel, lambda I: setup_pair(I, cellv, kernel, n_frames, times), timeout_ms=60000):
+    for I, ctx, _ in L.explore(mod, kernel, lambda I: setup_pair(I, cellv, kernel, n_frames, times, c0, second_frame), timeout_ms=60000):
         res["paths"] += 1
         X = ctx["X"]
-        x1 = X[0][0:3]
-        x2 = X[1][3:6] if is_t else X[0][3:6]
+        x1 = X[look][0:3]
+        x2 = X[1][3:6] if is_t else X[look][3:6]
         r = [x2[i] - x1[i] for i in range(3)]
-        v3 = I.get_floats(ctx["disp"], 3)
-        dist = I.get_floats(ctx["dout"], 1)[0]
+        v3 = I.get_floats(L.Ptr(ctx["disp"].obj, 12 * look), 3)
+        dist = I.get_floats(L.Ptr(ctx["dout"].obj, 4 * look), 1)[0]
         sq = [a for a in I.fnapps if a[0] == "sqrt" and a[1].key() == P(dist).key()]
         if len(sq) != 1:
             return {"status": "error", "detail": f"distance output is not a single sqrt: {dist}"}
         d2 = sq[0][2][0]
         Lmax = max(abs(float(x)) for row in (cellv or [[1]]) for x in row)
-        bounds = [z3.And(I.emit(x) >= -coord_cells * Lmax, I.emit(x) <= coord_cells * Lmax) for fr in X for x in fr]
+        bounds = [z3.And(I.emit(x) >= -coord_cells * Lmax, I.emit(x) <= coord_cells * Lmax) for fr in X for x in fr if L.conc(x) is None]
         base = I.side + I.path + bounds
         lv = list(leaves(v3))
         res["leaves"] += len(lv)
@@ -256,7 +261,7 @@ def check_kernel(kernel: str, cell: str, M: int = 2, coord_cells: int = 50):
             res["cuts"] = res.get("cuts", 0) + 1
         if rr == z3.sat:
             m = sol.model()
-            vals = {str(x): L_model_float(m, I.emit(x)) for fr in X for x in fr}
+            vals = {str(x): L_model_float(m, I.emit(x)) for x in X[look]}
             bad = bad or ("b_minimum_image", "an image within +-M cells is shorter than the reported displacement", vals)
         elif rr != z3.unsat:
             unknown.append("b_minimum_image")
